@@ -74,6 +74,16 @@ def skeleton(kind):
 
 
 def plant(n, kind, rnd, t):
+    before = set(map(id, n.children))
+    _plant(n, kind, rnd, t)
+    for c in n.children:
+        # planted nodes carry tail text, as inline elements of imported mixed content do: removing a node does not hand
+        # its text to anybody else (kept nodes are untouched)
+        if id(c) not in before and rnd.random() < 0.7:
+            c.tail = rnd.choice([" tail of the planted node ", "x", " "])
+
+
+def _plant(n, kind, rnd, t):
     if kind == "unknown-child":
         j = Node("zzUnknown")
         j.add_child(Node("title", content="inner"))
